@@ -17,7 +17,7 @@ TEXTS = {
                 "(C01_builder_ontologies_exact); Arena::insert and every successful add_parent keep "
                 "ids unique, links resolving and children the exact inverse of parents, add_parent adds exactly one link. Plus soundness of the "
                 "executable statement closure_ok, which the check evaluates inside Coq on the real crate's observation of every generated "
-                "ontology (Builder, binary v1-v3, hp.obo, sub_ontology paths); the transcription is diffed against the crate. EACH CONSTRUCTION PATH (C01_every_constructed_ontology): for every ontology produced by a Builder script, a JAX load (closed hp.obo), from_bytes on a well-formed file, or sub_ontology of any such ontology (nested to any depth) the ancestor caches are exactly the transitive closure, children = parents^-1 and the graph is acyclic.",
+                "ontology (Builder, binary v1-v3, hp.obo, sub_ontology paths); the transcription is diffed against the crate. EACH CONSTRUCTION PATH (C01_every_constructed_ontology): for every ontology produced by a Builder script, a JAX load (closed hp.obo), from_bytes on a well-formed file, or sub_ontology of any such ontology (nested to any depth) the ancestor caches are exactly the transitive closure, children = parents^-1 and the graph is acyclic. TOTALITY (C01_connect_returns_on_ranked_graphs): connect_all_terms returns on every graph with a rank decreasing along parent links below the fuel — it returns exactly on acyclic graphs. RENDERINGS (sub-check C01r; C01_mermaid_text, C01_rendered_edges_are_the_links, C01_graphviz_returns): as_mermaid / as_graphviz draw exactly the parent-child links.",
         "design_ref": "DESIGN.md §4 C01, §9",
         "note": NOTE_COMMON + "Acyclic inputs only (the property's quantifier). Totality of the fuelled recursion on DAGs is not a theorem (a fuel exhaustion would show as a disagreement).",
         "technique": TECH,
@@ -36,7 +36,7 @@ TEXTS = {
                 "is_a graph is acyclic. Record side: annotate_* adds the term to the record's direct "
                 "set only. Plus "
                 "soundness of the executable statement kind_ok / recs_ok, evaluated on the real crate's observation for the three kinds "
-                "separately (records vs supplied facts, id-map probes for kind leakage); the transcription is diffed against the crate. EACH CONSTRUCTION PATH (C02_every_constructed_ontology): the same inherited-annotation statement, distinct record ids and records naming stored terms for every ontology produced by any public constructor (Builder, JAX loaders, from_bytes, sub_ontology, nested).",
+                "separately (records vs supplied facts, id-map probes for kind leakage); the transcription is diffed against the crate. EACH CONSTRUCTION PATH (C02_every_constructed_ontology): the same inherited-annotation statement, distinct record ids and records naming stored terms for every ontology produced by any public constructor (Builder, JAX loaders, from_bytes, sub_ontology, nested). TOTALITY (C02_model_link_returns): the propagation returns with the fuel the code path uses.",
         "design_ref": "DESIGN.md §4 C02, §9", "note": NOTE_COMMON + "Acyclic inputs only.", "technique": TECH,
     },
     "C03": {
@@ -155,7 +155,7 @@ TEXTS = {
                 "C07_jax_roundtrip_complete discharges these for every ontology from_standard / from_standard_transitive loads from files whose "
                 "hp.obo has a stanza for every is_a target, C07_sub_ontology_roundtrip_complete for every sub_ontology of an ontology with exact "
                 "caches. Additionally decided per generated ontology by running the encode/decode transcription against as_bytes/from_bytes (bytes compared "
-                "record-sorted, reload dumped through the whole read API, Ontology::compare consulted) and by spec_C07 on the crate's observation. ALL REACHABLE ONTOLOGIES (C07_every_constructed_ontology_roundtrips): the round trip for every ontology produced by any public constructor, nested sub-ontologies included.",
+                "record-sorted, reload dumped through the whole read API, Ontology::compare consulted) and by spec_C07 on the crate's observation. ALL REACHABLE ONTOLOGIES (C07_every_constructed_ontology_roundtrips): the round trip for every ontology produced by any public constructor, nested sub-ontologies included. ACCEPTANCE (C07_writer_output_is_accepted, C07_constructed_output_is_accepted): from_bytes(as_bytes o) RETURNS an ontology for every well-formed source with both standard roots that the format can carry — in particular for every ontology produced by the public constructors; the loader neither rejects nor panics nor runs out of fuel.",
         "design_ref": "DESIGN.md §4 C07, §9", "note": NOTE_COMMON + "String::from_utf8 / is_char_boundary modelled by byte-level predicates.", "technique": TECH,
     },
     "C08": {
@@ -224,7 +224,7 @@ TEXTS = {
                 "spec_C11 compares every distance the crate reports with sd over the reported parent links, distance_to_term with the "
                 "minimum over common ancestors, and checks every reported path link by link (a walk of exactly the reported distance); the "
                 "transcription of the four queries is diffed against the crate on ALL ordered pairs of each generated ontology and on "
-                "selected pairs of 70-130-term chains. Not proved: that ontologies loaded from binary or JAX files are qgood (executed). C11_constructed_ontologies_are_qgood: the hypothesis of all these theorems holds for every ontology produced by any public constructor.",
+                "selected pairs of 70-130-term chains. Not proved: that ontologies loaded from binary or JAX files are qgood (executed). C11_constructed_ontologies_are_qgood: the hypothesis of all these theorems holds for every ontology produced by any public constructor. TOTALITY (C11_distance_to_ancestor_returns, C11_path_to_ancestor_returns, C11_distance_to_term_returns, C11_path_to_term_returns): in an acyclic ontology with exact caches all four queries return for all terms (none of path_to_term's expect() panics).",
         "design_ref": "DESIGN.md §4 C11, §9", "note": NOTE_COMMON + "Acyclic inputs only. Paths compared for validity and length, not identity.", "technique": TECH,
     },
     "C13": {
@@ -251,7 +251,7 @@ TEXTS = {
                 "direct terms that are retained; the result is acyclic and every one of its terms carries exactly the kept records with a "
                 "retained direct term at the term or below it (the C02 statement holds again in the result). spec_C14 states retained set, induced links, copied names/flags, "
                 "preserved distances, refusal iff a leaf is outside the subtree, the annotation filter, and re-runs the executable statements "
-                "of C01-C03 on the result, evaluated on the crate's observation; the transcription is diffed against the crate. LEAF DISTANCE (C14_model_leaf_distance_kept): every leaf reaches root in the result by a chain whose length is the shortest distance in the source, and no chain of the result is shorter; C14_model_contains_leaves_and_root.",
+                "of C01-C03 on the result, evaluated on the crate's observation; the transcription is diffed against the crate. LEAF DISTANCE (C14_model_leaf_distance_kept): every leaf reaches root in the result by a chain whose length is the shortest distance in the source, and no chain of the result is shorter; C14_model_contains_leaves_and_root. C14_model_acceptance: the call is refused only then (the retained set is computed whenever every leaf is root or below it); C14_model_leaf_collection_is_a_set: order and multiplicity of the leaves are irrelevant.",
         "design_ref": "DESIGN.md §4 C14, §9", "note": NOTE_COMMON, "technique": TECH,
     },
     "C17": {
@@ -270,7 +270,7 @@ TEXTS = {
                 "between that union and the node's set (set_to_last yields the new set paired with every live set, in order); "
                 "C17_initial_matrix: the run starts from the user's distance of every pair of input sets (each pair asked once: "
                 "C17_initial_pairs_each_once). The replay additionally checks per merge that no live pair is closer, the reported distance, and the "
-                "method-specific update (min / max / mean / user distance on the union); the transcription is diffed bit for bit. THE MODEL'S RUN RETURNS A DENDROGRAM (C17_run_returns_a_dendrogram, every number type / distance / method): n-1 merges, merge k has lhs < rhs < n+k and size = sum of its parts, every node 0..2n-3 is merged exactly once, the last merge has size n, indicies is a permutation of 0..n-1.",
+                "method-specific update (min / max / mean / user distance on the union); the transcription is diffed bit for bit. THE MODEL'S RUN RETURNS A DENDROGRAM (C17_run_returns_a_dendrogram, every number type / distance / method): n-1 merges, merge k has lhs < rhs < n+k and size = sum of its parts, every node 0..2n-3 is merged exactly once, the last merge has size n, indicies is a permutation of 0..n-1. TOTALITY (C17_clustering_returns): all four methods return on every non-empty list of sets, for every number type and distance function (no expect() of linkage.rs panics, the Combinations iterator ends within its fuel) — so clustering n sets YIELDS exactly n-1 merges forming a dendrogram.",
         "design_ref": "DESIGN.md §4 C17, §9",
         "note": NOTE_COMMON + "Axioms: the four standard-library axioms behind Coq Reals (via Flocq's binary32 in the replay's distance type). HashMap order: on a tie the crate may merge another minimal pair than the model; such runs are decided by the replay only.",
         "technique": TECH,
